@@ -1,5 +1,5 @@
 SPECIFICATION Spec
-CONSTANTS NX = 4  NY = 3  NZ = 3  Variant = "widths_unsliced"  HaloMode = "few"  NumFields = 1  NumWidths = 2  Parts = 2
+CONSTANTS NX = 4  NY = 3  NZ = 3  Variant = "widths_unsliced"  HaloMode = "neg"  NumFields = 1  NumWidths = 2  DetMode = "unit"  Parts = 2
 INVARIANT TypeOK
 INVARIANT RecordIsFormula
 INVARIANT PathsAgree
